@@ -150,13 +150,13 @@ type scenario struct {
 func scenarios(thorough bool) []scenario {
 	s := []scenario{
 		{"buildA||buildB", []string{"buildA", "buildB"}, false},
-		{"runA||runB", []string{"runA", "runB"}, false},
-		{"buildA||fmt", []string{"buildA", "fmt"}, false},
 		{"loadTest||loadTest (cold)", []string{"loadTest", "loadTest"}, true},
-		{"loadTest||buildB", []string{"loadTest", "buildB"}, false},
+		{"buildA||fmt", []string{"buildA", "fmt"}, false},
 	}
 	if thorough {
 		s = append(s,
+			scenario{"runA||runB", []string{"runA", "runB"}, false},
+			scenario{"loadTest||buildB", []string{"loadTest", "buildB"}, false},
 			scenario{"buildA||buildA", []string{"buildA", "buildA"}, false},
 			scenario{"buildA||buildB||fmt", []string{"buildA", "buildB", "fmt"}, false},
 			scenario{"runA||buildB", []string{"runA", "buildB"}, false},
@@ -437,7 +437,7 @@ func main() {
 		}
 		ok = true
 		_ = ok
-		fmt.Fprintf(os.Stderr, "[c28] scenario %s: default execution has %d decisions, %d points\n", sc.Name, len(root.Decisions), root.Points)
+		fmt.Fprintf(os.Stderr, "[c28 %s] scenario %s: default execution has %d decisions, %d points\n", time.Now().Format("15:04:05"), sc.Name, len(root.Decisions), root.Points)
 		execs := int64(root.Executions)
 		r.Transitions.Add(int64(len(root.Decisions)))
 		for _, v := range root.Viols {
@@ -524,7 +524,9 @@ func main() {
 			dirtyAware := func(js []Job) {
 				pool.Run(len(js), func(i int) interface{} { return js[i] }, 15*time.Minute, handle(js))
 			}
+			fmt.Fprintf(os.Stderr, "[c28 %s] %d jobs start\n", time.Now().Format("15:04:05"), len(jobs))
 			dirtyAware(jobs)
+			fmt.Fprintf(os.Stderr, "[c28 %s] jobs done, %d to retry\n", time.Now().Format("15:04:05"), len(retry))
 		}
 		// jobs whose worker died or hung: the process exited (logger.Fatal / fatal error) or a
 		// thread spun. Re-run each alone 3 times; if it fails every time it is a violation.
@@ -549,7 +551,7 @@ func main() {
 				r.HarnessError("scenario %s schedule %v fails %d/3 times (not deterministic)", sc.Name, j.Prefix, fails)
 			}
 		}
-		fmt.Fprintf(os.Stderr, "[c28] scenario %s: %d executions, %d outcomes, %d violation keys so far\n", sc.Name, execs, len(outcomes), r.ViolationCount())
+		fmt.Fprintf(os.Stderr, "[c28 %s] scenario %s: %d executions, %d outcomes, %d violation keys so far\n", time.Now().Format("15:04:05"), sc.Name, execs, len(outcomes), r.ViolationCount())
 		r.Evals.Add(execs)
 		r.States.Add(int64(len(outcomes)))
 		for o := range outcomes {
